@@ -68,7 +68,7 @@ Lemma hex4_ext s c t K : hex4 s = Some (c, t) -> hex4 (s ++ K) = Some (c, t ++ K
 Proof.
   destruct s as [|h1 [|h2 [|h3 [|h4 s]]]]; try discriminate. cbn [app]. unfold hex4.
   destruct (unhex h1), (unhex h2), (unhex h3), (unhex h4); try discriminate.
-  intros H. inversion H; subst. reflexivity.
+  intros [= <- <-]. reflexivity.
 Qed.
 
 Lemma uescape_ext s c t K : uescape s = Some (c, t) -> uescape (s ++ K) = Some (c, t ++ K).
@@ -154,7 +154,7 @@ Proof.
   - cbn in H. inversion H; subst. cbn [app].
     destruct HK as (c & K' & -> & [-> | ->]); reflexivity.
   - cbn [span_digits app] in *. destruct (is_digit d).
-    + destruct (span_digits t) as [a1 r1] eqn:E. rewrite (IH _ _ K HK E). inversion H; subst. reflexivity.
+    + destruct (span_digits t) as [a1 r1] eqn:E. rewrite (IH _ _ K HK eq_refl). inversion H; subst. reflexivity.
     + inversion H; subst. reflexivity.
 Qed.
 
@@ -240,18 +240,18 @@ Section LoopFacts.
       skip_ws s = 34 :: t /\ parse_string_body t = Some (k, r1) /\ skip_ws r1 = 58 :: r2 /\
       pv r2 = Some (v, r3) /\ mtail pv n r3 = Some (ms', r) /\ ms = (k, v) :: ms'.
   Proof.
-    cbn [mloop]. destruct (skip_ws s) as [|b t]; [discriminate|].
+    cbn [mloop]. destruct (skip_ws s) as [|b t] eqn:E1; [discriminate|].
     destruct (b =? 34) eqn:Eb; [|discriminate]. apply N.eqb_eq in Eb. subst b.
-    destruct (parse_string_body t) as [[k r1]|]; [|discriminate].
-    destruct (skip_ws r1) as [|c r2]; [discriminate|].
+    destruct (parse_string_body t) as [[k r1]|] eqn:E2; [|discriminate].
+    destruct (skip_ws r1) as [|c r2] eqn:E3; [discriminate|].
     destruct (c =? 58) eqn:Ec; [|discriminate]. apply N.eqb_eq in Ec. subst c.
-    destruct (pv r2) as [[v r3]|]; [|discriminate].
+    destruct (pv r2) as [[v r3]|] eqn:E4; [|discriminate].
     intros H. exists t, k, r1, r2, v, r3.
     unfold mtail. destruct (skip_ws r3) as [|d r4]; [discriminate|].
     destruct (d =? 44).
-    - destruct (mloop pv n r4) as [[ms' r5]|]; [|discriminate]. inversion H; subst.
-      exists ms'. repeat split; reflexivity.
-    - destruct (d =? 125); [|discriminate]. inversion H; subst. exists []. repeat split; reflexivity.
+    - destruct (mloop pv n r4) as [[ms' r5]|]; [|discriminate]. injection H as <- <-.
+      exists ms'. repeat split; auto.
+    - destruct (d =? 125); [|discriminate]. injection H as <- <-. exists []. repeat split; auto.
   Qed.
 
   Lemma mtail_inv n s ms r :
